@@ -7,7 +7,7 @@ from vlib import *
 FES = ["byte-le", "byte-be", "sample", "channel"]
 RATES = [8000, 16000, 22050, 24000, 32000, 44100, 48000, 88200, 96000, 176400, 192000,   # table codes
          1000, 255000, 12345, 65535, 655350, 123450, 123457, 0, 1, 1048575, 255000, 256000, 257000, 655360, 1000000]            # kHz / Hz / tens-of-Hz / STREAMINFO codes
-DEPTHS = [1, 2, 4, 7, 8, 12, 16, 17, 20, 24, 31, 32]
+DEPTHS = [1, 2, 4, 7, 8, 12, 16, 17, 20, 24, 28, 29, 30, 31, 32]
 SIGNALS = ["noise", "small", "sine", "walk", "const", "zero", "extremes", "stereo", "wasted", "ramp", "impulse",
            "panfirst", "panlast", "chanmix", "blockmix", "chanmix", "blockmix", "fade", "fade64", "burst", "constlo", "consthi", "anti", "anti", "hitone"]
 WINDOWS = ["rect", "hann", "tukey", "tukey1", "tukey0"]
@@ -100,6 +100,22 @@ def silence_histories(t, rnd):
                                           "padding": -1, "seektable": "none"},
                                  "pcm": {"signal": "gapmix:%d" % bs, "seed": rnd.randint(1, 99999), "frames": bs * (14 if bs < 100 else 8) + rnd.choice([0, 5])},
                                  "tag": "silence-history"})
+    return jobs
+
+
+def rail_alternations(t, rnd):
+    """full-scale alternation (a tone at Nyquist: hi, lo, hi, lo ...), whole or in bursts, at EVERY depth 20..32 - the widths at which the
+    n-th differences of the FIXED predictors (up to 16 x full scale) stop fitting 32 bits - mono and decorrelated stereo, with wasted
+    bits, with and without LPC in the way, short and long blocks"""
+    jobs = []
+    for bps in range(20, 33):
+        for ch, sig in ((1, "extremes"), (2, "extremes"), (2, "anti"), (1, "railburst")):
+            for lpc in (-1, 8):
+                bs = rnd.choice([16, 20, 64])
+                jobs.append({"fe": rnd.choice(FES), "rate": 44100, "bps": bps, "channels": ch,
+                             "opts": {"block_size": bs, "max_lpc": lpc, "max_po": rnd.choice([0, 3]), "mid_side": True, "fast_corr": rnd.random() < 0.5,
+                                      "padding": -1, "seektable": "none"},
+                             "pcm": {"signal": sig, "seed": rnd.randint(1, 99999), "frames": bs * 2 + rnd.choice([5, 7, 8])}, "tag": "rail-alternation"})
     return jobs
 
 
